@@ -733,3 +733,41 @@ fn edge_metric(c_a: &VertexSet, c_b: &VertexSet, edge_weight: EdgeWeightMethod) 
         EdgeWeightMethod::Cubic => n_1.pow(3) + n_2.pow(3) - n_m.pow(3),
     }
 }
+
+// ---------------------------------------------------------------------------
+// verification hooks (add-only, off unless feature `verif-hooks` is enabled)
+#[cfg(feature = "verif-hooks")]
+pub(crate) mod vh_clique_graph {
+    use super::*;
+
+    pub(crate) fn split_cliques(
+        snode: &mut [VertexSet],
+        separators: &mut [VertexSet],
+        snode_parent: &[usize],
+        snode_post: &[usize],
+        num_cliques: usize,
+    ) {
+        super::split_cliques(snode, separators, snode_parent, snode_post, num_cliques)
+    }
+
+    pub(crate) fn kruskal(E: &mut CscMatrix<isize>, num_cliques: usize) {
+        super::kruskal(E, num_cliques)
+    }
+
+    pub(crate) fn determine_parent_cliques(
+        snode_parent: &mut [usize],
+        snode_children: &mut [VertexSet],
+        cliques: &[VertexSet],
+        post: &[usize],
+        E: &CscMatrix<isize>,
+    ) {
+        super::determine_parent_cliques(snode_parent, snode_children, cliques, post, E)
+    }
+
+    pub(crate) fn compute_reduced_clique_graph(
+        separators: &mut [VertexSet],
+        snode: &[VertexSet],
+    ) -> (Vec<usize>, Vec<usize>) {
+        super::compute_reduced_clique_graph(separators, snode)
+    }
+}
